@@ -95,6 +95,13 @@ func verifRpcB01(b bool) string {
 func TestVerifRpcSeq(t *testing.T) {
 	ops := verifRpcReadOps(t)
 	out := make([]string, 0, len(ops))
+	// results are also appended line by line, so that a crash or a deadlock of the code under test leaves the
+	// results produced so far
+	partial, perr := os.OpenFile(os.Getenv("VERIF_OUT"), os.O_CREATE|os.O_TRUNC|os.O_WRONLY, 0o644)
+	if perr != nil {
+		t.Fatalf("VERIF_OUT: %v", perr)
+	}
+	defer partial.Close()
 	for _, line := range ops {
 		f := strings.Fields(line)
 		var res string
@@ -118,8 +125,8 @@ func TestVerifRpcSeq(t *testing.T) {
 			}
 		}()
 		out = append(out, res)
+		_, _ = partial.WriteString(res + "\n")
 	}
-	verifRpcWriteOut(t, out)
 }
 
 func verifRpcAlloc(last string, n int) string {
@@ -139,8 +146,11 @@ func verifRpcAlloc(last string, n int) string {
 }
 
 type verifRpcPcCall struct {
-	q    int64
-	resp *Response
+	q        int64
+	resp     *Response
+	started  bool // setupCallLocked succeeded
+	returned bool // doWait returned and the Response went back to the pool (it may be reused by a later call)
+	reported bool // its delivery was already listed under dlv=
 }
 
 func verifRpcErrName(err error) string {
@@ -181,6 +191,7 @@ func verifRpcPc(ops []string) string {
 		}
 		return "?" + strconv.FormatInt(q, 10)
 	}
+	stale := false
 	var pipes []net.Conn
 	defer func() {
 		for _, p := range pipes {
@@ -188,17 +199,32 @@ func verifRpcPc(ops []string) string {
 		}
 	}()
 	dump := func(res string, extraDlv []string) string {
-		// deliveries through the result channels
+		// results sitting in the result channels (looked at and put back: only this goroutine touches them)
 		dlv := append([]string{}, extraDlv...)
-		for i, cl := range calls {
-			select {
-			case r := <-cl.resp.singleResult:
-				if r.resp != cl.resp {
-					dlv = append(dlv, fmt.Sprintf("%d=WRONGRESP", i))
-				} else {
-					dlv = append(dlv, fmt.Sprintf("%d=%s", i, verifRpcErrName(r.err)))
-				}
-			default:
+		var inChan []string
+		pc.mu.Lock()
+		for i := range calls {
+			if _, pending := pc.calls[calls[i].q]; pending && !calls[i].returned && len(calls[i].resp.singleResult) != 0 {
+				stale = true // a pending call already has a result in its channel: the next delivery would block for ever
+			}
+		}
+		pc.mu.Unlock()
+		for i := range calls {
+			cl := &calls[i]
+			if cl.returned || len(cl.resp.singleResult) == 0 {
+				continue
+			}
+			r := <-cl.resp.singleResult
+			cl.resp.singleResult <- r
+			inChan = append(inChan, strconv.Itoa(i))
+			if cl.reported {
+				continue
+			}
+			cl.reported = true
+			if r.resp != cl.resp {
+				dlv = append(dlv, fmt.Sprintf("%d=WRONGRESP", i))
+			} else {
+				dlv = append(dlv, fmt.Sprintf("%d=%s", i, verifRpcErrName(r.err)))
 			}
 		}
 		sort.Strings(dlv)
@@ -234,9 +260,9 @@ func verifRpcPc(ops []string) string {
 			}
 		}
 		sort.Strings(wq)
-		return fmt.Sprintf("%s calls=%s wq=%s inf=%d sh=%s fin=%s up=%s cl=%s wt=%s dlv=%s", res,
+		return fmt.Sprintf("%s calls=%s wq=%s inf=%d sh=%s fin=%s up=%s cl=%s wt=%s dlv=%s chan=%s", res,
 			verifRpcList(cs), verifRpcList(wq), pc.inFlight, verifRpcB01(pc.isShutdown), verifRpcB01(pc.writeClientWantsFin),
-			verifRpcB01(pc.conn != nil), verifRpcB01(pc.closeCC == nil), verifRpcB01(pc.waitingToReconnect), verifRpcList(dlv))
+			verifRpcB01(pc.conn != nil), verifRpcB01(pc.closeCC == nil), verifRpcB01(pc.waitingToReconnect), verifRpcList(dlv), verifRpcList(inChan))
 	}
 	var outs []string
 	for _, op := range ops {
@@ -265,6 +291,7 @@ func verifRpcPc(ops []string) string {
 				pc.mu.Lock()
 				err := pc.setupCallLocked(req, resp)
 				pc.mu.Unlock()
+				calls[len(calls)-1].started = err == nil
 				if err == nil {
 					res = dump("ok", nil)
 				} else {
@@ -311,6 +338,19 @@ func verifRpcPc(ops []string) string {
 					_ = closeNow.Close()
 				}
 				res = dump("found="+verifRpcB01(cctx != nil), nil)
+			case "w":
+				cl := &calls[verifRpcAtoi(f[1])]
+				if !cl.started || cl.returned {
+					res = "not-allowed"
+					break
+				}
+				ctx, cancel := context.WithCancel(context.Background())
+				cancel()
+				_ = c.doWait(ctx, pc, cl.resp) // either select case may run when the result is already there
+				dirty := len(cl.resp.singleResult)
+				cl.returned = true
+				c.PutResponse(cl.resp) // later s: ops take Responses from the pool
+				res = dump(fmt.Sprintf("ret dirty=%d", dirty), nil)
 			case "x":
 				pc.dropClientConn()
 				cbs, cont := pc.continueRunningImpl(f[1] == "1")
@@ -339,6 +379,10 @@ func verifRpcPc(ops []string) string {
 			break
 		}
 		outs = append(outs, res)
+		if stale {
+			outs = append(outs, "STALE-RESULT-IN-PENDING-CALL")
+			break
+		}
 	}
 	return strings.Join(outs, " | ")
 }
@@ -639,6 +683,44 @@ type verifRpcLog struct {
 	mu    sync.Mutex
 	id    string
 	lines []string
+	gates sync.Map // call idx -> chan struct{}, closed by the handler when it returns (response on its way)
+}
+
+// verifRpcRaceCtx pins the interleaving "the context is cancelled while the response is being delivered", which in
+// production happens by chance (deadline ~ server latency): Done() -- evaluated by the select of doWait -- is not ready
+// before the handler has returned, and is closed `settle` later, when the response is (about to be) in the result
+// channel.  Then both cases of the select are ready and either may run.  Bounded by maxWait so that a request that
+// is never handled (closed client/server) cannot block the call.
+type verifRpcRaceCtx struct {
+	context.Context
+	gate    <-chan struct{}
+	settle  time.Duration
+	maxWait time.Duration
+	fired   atomic.Bool
+	onFire  func()
+	once    sync.Once
+}
+
+var verifRpcClosedChan = func() chan struct{} { c := make(chan struct{}); close(c); return c }()
+
+func (c *verifRpcRaceCtx) Done() <-chan struct{} {
+	if !c.fired.Load() {
+		select {
+		case <-c.gate:
+			time.Sleep(c.settle)
+		case <-time.After(c.maxWait):
+		}
+		c.once.Do(c.onFire)
+		c.fired.Store(true)
+	}
+	return verifRpcClosedChan
+}
+
+func (c *verifRpcRaceCtx) Err() error {
+	if c.fired.Load() {
+		return context.Canceled
+	}
+	return nil
 }
 
 func (l *verifRpcLog) add(format string, a ...any) {
@@ -666,6 +748,8 @@ type verifRpcPlan struct {
 	timeoutMs int  // ctx deadline, 0 = none
 	extraTmo  bool // deadline through Extra.CustomTimeoutMs instead of ctx
 	cancelUs  int  // < 0: no cancel
+	race      bool // context that is cancelled just when the response arrives (verifRpcRaceCtx)
+	settleUs  int
 	extras    int
 	actor     int64
 	tl2       bool
@@ -716,6 +800,9 @@ func verifRpcHandler(l *verifRpcLog, st *verifRpcSrvStats) HandlerFunc {
 		respPad := int(binary.LittleEndian.Uint32(body[17:]))
 		sum := sha256.Sum256(body)
 		l.add("S %d %d", hctx.QueryID(), idx)
+		if g, ok := l.gates.Load(idx); ok {
+			defer close(g.(chan struct{}))
+		}
 		if st != nil {
 			acc := int64(len(body))
 			if acc < st.bufSize {
@@ -851,7 +938,13 @@ func verifRpcDoCall(l *verifRpcLog, client Client, network, addr string, p *veri
 	}
 	q := req.QueryID()
 	l.add("C %d %d %s %s", q, p.idx, verifRpcB01(p.fail), verifRpcB01(hasTmo))
-	if p.cancelUs >= 0 {
+	if p.race {
+		gate := make(chan struct{})
+		l.gates.Store(uint64(p.idx), gate)
+		defer l.gates.Delete(uint64(p.idx))
+		ctx = &verifRpcRaceCtx{Context: ctx, gate: gate, settle: time.Duration(p.settleUs) * time.Microsecond,
+			maxWait: 300 * time.Millisecond, onFire: func() { l.add("X %d", q) }}
+	} else if p.cancelUs >= 0 {
 		var cancel context.CancelFunc
 		ctx, cancel = context.WithCancel(ctx)
 		tm := time.AfterFunc(time.Duration(p.cancelUs)*time.Microsecond, func() {
@@ -872,7 +965,7 @@ func verifRpcDoCall(l *verifRpcLog, client Client, network, addr string, p *veri
 
 // ---------------------------------------------------------------------------------------------- TestVerifRpcMux
 
-func verifRpcPlanCalls(n int, maxBody int, seed int64, forceTimeout bool) []*verifRpcPlan {
+func verifRpcPlanCalls(n int, maxBody int, seed int64, forceTimeout bool, racePct int) []*verifRpcPlan {
 	rng := mrand.New(mrand.NewSource(seed))
 	plans := make([]*verifRpcPlan, n)
 	for i := range plans {
@@ -911,7 +1004,17 @@ func verifRpcPlanCalls(n int, maxBody int, seed int64, forceTimeout bool) []*ver
 		if rng.Intn(100) < 15 {
 			p.cancelUs = rng.Intn(8000)
 		}
-		if forceTimeout && p.timeoutMs == 0 {
+		if rng.Intn(100) < racePct {
+			// cancellation racing with the arrival of the response; no other deadline/cancel on this call
+			p.race, p.settleUs, p.cancelUs, p.timeoutMs, p.extraTmo = true, rng.Intn(400), -1, 0, false
+			if p.delayMs > 5 {
+				p.delayMs = rng.Intn(3)
+			}
+		} else if racePct >= 40 && p.delayMs > 0 && p.cancelUs < 0 && rng.Intn(2) == 0 {
+			// deadline ~ handler latency: the chance version of the same race
+			p.timeoutMs, p.extraTmo = p.delayMs+rng.Intn(2), false
+		}
+		if forceTimeout && p.timeoutMs == 0 && !p.race {
 			p.timeoutMs = 250 + rng.Intn(250)
 		}
 		p.extras = rng.Intn(16)
@@ -964,7 +1067,11 @@ func verifRpcMuxScenario(dir string, kv map[string]string) []string {
 	serveDone := make(chan error, 1)
 	go func() { serveDone <- server.Serve(ln) }()
 	client := NewClient(ClientWithLogf(l.logf), ClientWithCryptoKey(verifRpcKey), ClientWithForceEncryption(enc))
-	plans := verifRpcPlanCalls(ncalls, verifRpcAtoi(kv["maxbody"]), seed, closeMode == "server")
+	racePct := 10
+	if kv["race"] != "" {
+		racePct = verifRpcAtoi(kv["race"])
+	}
+	plans := verifRpcPlanCalls(ncalls, verifRpcAtoi(kv["maxbody"]), seed, closeMode == "server", racePct)
 	l.add("BEGIN net=%s enc=%s workers=%s calls=%d threads=%d close=%s", kv["net"], kv["enc"], kv["workers"], ncalls, threads, closeMode)
 
 	var next atomic.Int64
